@@ -71,46 +71,10 @@ def run(ctx: Ctx):
         ctx.check(not bad and not infix, "R11.a", key, f"{r}: emits only grammar heads", f".ode writer: {r} emits " + (f"heads {bad} that are not in the grammar" if bad else f"infix operators {infix}") + "; the saved file is rejected by the loader", r.func.where())
     printers.check_no_unvetted_override(ctx, "R11.a", "ode", skip=pm.NOT_FOR_WRITER)
     # operator table
-    rel = M.method("ode", "_print_Relational")
-    ctx.require(rel, "BaseGotranODECodePrinter._print_Relational not found")
+    check_relational(ctx, "R11.a")
     from sa import av as _av11
 
     from . import util as _u11
-    from .c03 import _branches as _br11
-
-    rv = _u11.value_of(ctx, rel)
-    if _av11.has_unk(rv):
-        ctx.undecided("R11.a", rel.key("relop"), "what _print_Relational returns is not understood", rel.where())
-    else:
-        ep = rel.params[-1]
-        L, R = "{self._print(" + ep + ".lhs)}", "{self._print(" + ep + ".rhs)}"
-        tab, ne_text, generic = {}, None, None
-        for conds, leaf in _br11(rv):
-            if not _av11._is_str(leaf):
-                continue
-            flat = _av11.flatten(leaf).replace(_av11.HO, "{").replace(_av11.HC, "}")
-            eqs = [c for c in conds if c[0] == "cmp" and c[1] == "==" and c[2] == ("sym", f"{ep}.rel_op") and c[3][0] == "c"]
-            dicts = [x for x in _av11.find_all(leaf, "sub") if x[1][0] == "dict" and x[2] == ("sym", f"{ep}.rel_op")]
-            if eqs:
-                op = eqs[0][3][1]
-                if op == "!=":
-                    ne_text = flat
-                else:
-                    m = re.fullmatch(r"(\w+)\(" + re.escape(L) + ", " + re.escape(R) + r"\)", flat)
-                    tab[op] = m.group(1) if m else flat
-            elif dicts:
-                generic = flat
-                for k, x in dicts[0][1][1]:
-                    if k[0] == "c" and x[0] == "c":
-                        tab.setdefault(k[1], x[1])
-        for op, head in RELOPS.items():
-            ctx.check(tab.get(op) == head, "R11.a", rel.key(f"relop::{op}"), f"`{op}` -> {head}", f"_print_Relational writes `{op}` as {tab.get(op)!r}, which the loader reads as another relation than {head}", rel.where())
-        extra = {k: v for k, v in tab.items() if k not in RELOPS}
-        ne_ok = (ne_text == "Not(Eq(" + L + ", " + R + "))") or extra.get("!=") in logical
-        ctx.check(ne_ok and all(v in logical for v in extra.values()), "R11.a", rel.key("relop::!="), "`!=` -> Not(Eq(..))", f"_print_Relational: `!=` is written as {ne_text!r} (extra table entries: {extra}), not Not(Eq(lhs, rhs))", rel.where())
-        if generic is not None:
-            okg = re.fullmatch(r"\{.*\}\(" + re.escape(L) + ", " + re.escape(R) + r"\)", generic) is not None
-            ctx.check(okg, "R11.a", rel.key("operands"), "Head(lhs, rhs)", f"_print_Relational does not print `Head(printed lhs, printed rhs)` (returns {generic[:100]})", rel.where())
     for cname in ("And", "Or"):
         f = M.method("ode", f"_print_{cname}")
         ctx.require(f, f"writer _print_{cname} not found")
@@ -419,3 +383,32 @@ def check_number_forms(ctx: Ctx, rule: str, G):
         return
     for form, witness in NUMBER_FORMS.items():
         ctx.check(pat.fullmatch(witness) is not None, rule, f"src/gotranx/ode.lark::{name}::accepts::{form}", f"`{witness}` is one {name} token", f"the grammar's number token {name} does not accept `{witness}` ({form}), a form the .ode writer prints for Float / Integer values: a saved model with such a value cannot be loaded again", "src/gotranx/ode.lark")
+
+
+def check_relational(ctx: Ctx, rule: str):
+    """writer: every relational operator is written with the head the loader reads back as the same relation"""
+    M = printers.model(ctx)
+    rel = M.method("ode", "_print_Relational")
+    ctx.require(rel, "BaseGotranODECodePrinter._print_Relational not found")
+    from sa import av as _av11
+
+    from . import util as _u11
+    from .c03 import _branches as _br11
+
+    rv = _u11.value_of(ctx, rel)
+    if _av11.has_unk(rv):
+        ctx.undecided(rule, rel.key("relop"), "what _print_Relational returns is not understood", rel.where())
+    else:
+        ep = rel.params[-1]
+        L, R = "{self._print(" + ep + ".lhs)}", "{self._print(" + ep + ".rhs)}"
+        # the text written for each operator sympy can hand over: the value specialised to expr.rel_op == <op>
+        wants = {op: f"{head}({L}, {R})" for op, head in RELOPS.items()}
+        wants["!="] = "Not(Eq(" + L + ", " + R + "))"
+        for op, want in wants.items():
+            t = _av11.renorm_deep(_av11.subst(rv, {("sym", f"{ep}.rel_op"): _av11.C(op)}))
+            key = rel.key(f"relop::{op}")
+            if not _av11._is_str(t) or t[0] == "if" or _av11.has(t, "if"):
+                ctx.undecided(rule, key, f"what _print_Relational writes for `{op}` does not reduce to one text ({_av11.show(t)[:100]})", rel.where())
+                continue
+            flat = _av11.flatten(t).replace(_av11.HO, "{").replace(_av11.HC, "}")
+            ctx.check(flat == want, rule, key, f"`{op}` -> {want.split('(')[0]}(..)", f"_print_Relational writes `lhs {op} rhs` as `{flat[:90]}`, which the loader reads as another relation than {want.replace(L, 'lhs').replace(R, 'rhs')}", rel.where())
